@@ -1,12 +1,16 @@
 /* C26 (a): what evhttp_make_header() writes.  The real evhttp_make_header()
  * (evhttp_make_header_response / _request, automatic headers, header loop,
- * body) writes into a flat sink evbuffer; the bytes must be EXACTLY
+ * body) writes into a RECORDING sink (env/http_recsink.h); the sequence of
+ * write operations must be exactly
  *
- *   start-line CRLF  *( name ": " value CRLF )  CRLF  body
+ *   printf(start-line format, caller's components)
+ *   printf("%s: %s\r\n", name, value)   for the caller's header, then for the
+ *                                       documented automatic headers only
+ *   add("\r\n")
+ *   add_buffer(caller's body)           all of it, once
  *
- * with the caller's strings verbatim, the caller's header first and then only
- * the documented automatic headers (Date, Content-Length) in that order, and
- * the caller's body bytes.
+ * i.e. bytes on the wire = start-line CRLF *(name ": " value CRLF) CRLF body
+ * with the caller's strings verbatim.
  *
  * This is one third of the C26 argument (see props/C26.py):
  *   (a) this file:        output = format(components)              [real code]
@@ -14,14 +18,9 @@
  *   (c) C26_lemma.c:      format(safe components) parses back, under the RFC
  *                         9112 reference recipient, to exactly those components
  *
- * Everything that decides HOW MANY bytes are written is fixed per obligation
- * (string lengths, status code, method, body length: -DVP_K -DVP_V -DVP_R
- * -DVP_CODE -DVP_METHOD -DVP_B, enumerated by the driver), so the layout of the
- * sink is concrete; the bytes of the caller's strings are symbolic (any byte
- * but NUL).
- *
- * Environment: evutil_date_rfc1123 -> fixed text "D" (evutil_time.c is not the
- * subject); bufferevent_get_output -> the sink.
+ * Symbolic: caller's header name (<= VP_K bytes) and value (<= VP_V), reason
+ * phrase / target (<= VP_V), status code, HTTP minor version, method, body
+ * length (0..99999; bodies only carry a length here).
  */
 #include "vp.h"
 #include "log_stub.h"
@@ -30,28 +29,14 @@
 #include "http_evutil.h"
 #include "http.c"
 #ifndef VP_K
-#define VP_K 2   /* header name bytes */
+#define VP_K 4
 #endif
 #ifndef VP_V
-#define VP_V 3   /* header value bytes */
+#define VP_V 6
 #endif
-#ifndef VP_R
-#define VP_R 2   /* reason phrase / target bytes */
-#endif
-#ifndef VP_MINOR
-#define VP_MINOR 1
-#endif
-#ifndef VP_CODE
-#define VP_CODE 200
-#endif
-#ifndef VP_METHOD
-#define VP_METHOD 0
-#endif
-#ifndef VP_B
-#define VP_B 0
-#endif
-#define VP_FLAT_CAP 96
-#include "http_flatbuf.h"
+#include "http_recsink.h"
+#define REF_MAXLINE 24
+#include "http_ref.h"
 
 static struct bufferevent vp_bev;
 struct evbuffer *bufferevent_get_output(struct bufferevent *b) { return b->output; }
@@ -63,20 +48,30 @@ int evutil_date_rfc1123(char *date, const size_t datelen, const struct tm *tm)
 	date[0] = 'D'; date[1] = '\0';
 	return 1;
 }
-
-/* expected output, built by plain concatenation */
-static unsigned char exp_out[VP_FLAT_CAP];
-static size_t exp_len;
-static void ex_s(const char *s) { size_t i; for (i = 0; s[i] != '\0'; i++) exp_out[exp_len++] = (unsigned char)s[i]; }
-static void ex_c(char c) { exp_out[exp_len++] = (unsigned char)c; }
-
-static void vp_cstr(char *buf, size_t n)
+static size_t vp_cstr(char *buf, size_t max)
+{
+	size_t n, i;
+	vp_bytes(buf, max);
+	n = (size_t)vp_range(0, max);
+	buf[n] = '\0';
+	for (i = 0; i < max; i++) {
+		if (i >= n) buf[i] = '\0';
+		else __CPROVER_assume(buf[i] != '\0');
+	}
+	return n;
+}
+static int same_str(const char *a, const char *b, size_t max)
 {
 	size_t i;
-	vp_bytes(buf, n);
-	buf[n] = '\0';
-	for (i = 0; i < n; i++)
-		__CPROVER_assume(buf[i] != '\0');
+	for (i = 0; i <= max; i++) {
+		if (a[i] != b[i]) return 0;
+		if (a[i] == '\0') return 1;
+	}
+	return 1;
+}
+static int is_hdr(const struct vp_rec *r, const char *name, size_t max)
+{
+	return vp_fmt_is(r, "%s: %s\r\n") && r->nargs == 2 && r->argt[0] == 's' && r->argt[1] == 's' && same_str(r->sarg[0], name, max);
 }
 
 void harness_head(void)
@@ -86,9 +81,10 @@ void harness_head(void)
 	struct evhttp http;
 	struct evkeyvalq in_headers, out_headers;
 	struct evbuffer *sink, *body;
-	char key[VP_K + 1], val[VP_V + 1], txt[VP_R + 1];
-	size_t i;
-	int same = 1;
+	char key[VP_K + 1], val[VP_V + 1], txt[VP_V + 1];
+	size_t blen;
+	int minor, at = 0, expect_cl;
+	const struct vp_rec *r;
 
 	memset(&req, 0, sizeof(req));
 	memset(&evcon, 0, sizeof(evcon));
@@ -97,7 +93,7 @@ void harness_head(void)
 	TAILQ_INIT(&in_headers);
 	TAILQ_INIT(&out_headers);
 	TAILQ_INIT(&evcon.requests);
-	sink = evbuffer_new();
+	sink = evbuffer_new(); sink->is_sink = 1;
 	body = evbuffer_new();
 	vp_bev.output = sink;
 	evcon.bufev = &vp_bev;
@@ -105,60 +101,91 @@ void harness_head(void)
 	req.input_headers = &in_headers;
 	req.output_headers = &out_headers;
 	req.output_buffer = body;
-	req.major = 1; req.minor = VP_MINOR;
+	minor = vp_bool();
+	req.major = 1; req.minor = (char)minor;
 	req.evcon = &evcon;
 
 	/* caller content, placed the way the accepting API functions store it (obligation (b)) */
 	vp_cstr(key, VP_K);
 	vp_cstr(val, VP_V);
-	vp_cstr(txt, VP_R);
-	/* the caller's header is not one of the names the automatic headers look for (VP_K <= 4 rules out the longer ones) */
+	vp_cstr(txt, VP_V);
+	/* the caller's header is not one of the names the automatic headers look for
+	 * (with VP_K <= 4 only "Date" is short enough) */
 	__CPROVER_assume(evutil_ascii_strcasecmp(key, "Date") != 0);
-	if (VP_B) evbuffer_add(body, "xy", VP_B);
+	blen = (size_t)vp_range(0, 99999); /* printed as decimal by the automatic Content-Length */
+	body->len = blen;
 	{
 		int rc = evhttp_add_header_internal(&out_headers, key, val);
 		VP_ASSERT(rc == 0, "C26: header stored");
 	}
 
 #ifdef VP_RESPONSE
-	req.kind = EVHTTP_RESPONSE;
-	req.type = EVHTTP_REQ_GET;
-	req.response_code = VP_CODE;
-	req.response_code_line = mm_strdup(txt);
-	evhttp_make_header(&evcon, &req);
-	ex_s("HTTP/1."); ex_c('0' + VP_MINOR); ex_c(' ');
-	ex_c('0' + VP_CODE / 100); ex_c('0' + (VP_CODE / 10) % 10); ex_c('0' + VP_CODE % 10); ex_c(' ');
-	ex_s(txt); ex_s("\r\n");
-	ex_s(key); ex_s(": "); ex_s(val); ex_s("\r\n");
-	if (VP_MINOR >= 1) ex_s("Date: D\r\n");
-	if (VP_MINOR >= 1 && VP_CODE != 204 && VP_CODE != 304 && !(VP_CODE >= 100 && VP_CODE < 200)) {
-		ex_s("Content-Length: "); ex_c('0' + VP_B); ex_s("\r\n");
+	{
+		int code = (int)vp_range(100, 599);
+		int need_body;
+		req.kind = EVHTTP_RESPONSE;
+		req.type = vp_bool() ? EVHTTP_REQ_GET : EVHTTP_REQ_HEAD; /* method of the request being answered */
+		req.response_code = code;
+		req.response_code_line = mm_strdup(txt);
+		need_body = code != 204 && code != 304 && !(code >= 100 && code < 200) && req.type != EVHTTP_REQ_HEAD;
+
+		evhttp_make_header(&evcon, &req);
+
+		r = &sink->rec[at++];
+		VP_ASSERT(sink->nrec >= 3, "C26: status line, header(s) and CRLF written");
+		VP_ASSERT(vp_fmt_is(r, "HTTP/%d.%d %d %s\r\n") && r->nargs == 4, "C26: first write is the status line 'HTTP/%d.%d %d %s CRLF'");
+		VP_ASSERT(r->narg[0] == 1 && r->narg[1] == (unsigned)minor && r->narg[2] == (unsigned)code, "C26: status line carries the version and status code supplied");
+		VP_ASSERT(r->sarg[3] == req.response_code_line && same_str(r->sarg[3], txt, VP_V), "C26: status line carries the reason phrase supplied");
+		expect_cl = need_body && minor >= 1;
+		/* caller's header first */
+		r = &sink->rec[at++];
+		VP_ASSERT(is_hdr(r, key, VP_K) && same_str(r->sarg[1], val, VP_V), "C26: the caller's header is written verbatim as 'name: value CRLF'");
+		if (minor >= 1) {
+			r = &sink->rec[at++];
+			VP_ASSERT(is_hdr(r, "Date", 8) && same_str(r->sarg[1], "D", 4), "C26: automatic Date header (HTTP/1.1)");
+		}
 	}
-	ex_s("\r\n");
-	if (VP_B) { ex_c('x'); if (VP_B > 1) ex_c('y'); }
 #else
 	{
-		static const enum evhttp_cmd_type types[] = { EVHTTP_REQ_GET, EVHTTP_REQ_POST, EVHTTP_REQ_HEAD, EVHTTP_REQ_PUT, EVHTTP_REQ_DELETE, EVHTTP_REQ_OPTIONS };
-		static const char *const names[] = { "GET", "POST", "HEAD", "PUT", "DELETE", "OPTIONS" };
+		static const enum evhttp_cmd_type types[] = { EVHTTP_REQ_GET, EVHTTP_REQ_POST, EVHTTP_REQ_HEAD, EVHTTP_REQ_PUT, EVHTTP_REQ_DELETE, EVHTTP_REQ_OPTIONS, EVHTTP_REQ_TRACE };
+		static const char *const names[] = { "GET", "POST", "HEAD", "PUT", "DELETE", "OPTIONS", "TRACE" };
+		unsigned m = (unsigned)vp_range(0, 6);
 		req.kind = EVHTTP_REQUEST;
-		req.type = types[VP_METHOD];
+		req.type = types[m];
 		req.uri = mm_strdup(txt);
+
 		evhttp_make_header(&evcon, &req);
-		ex_s(names[VP_METHOD]); ex_c(' '); ex_s(txt); ex_s(" HTTP/1."); ex_c('0' + VP_MINOR); ex_s("\r\n");
-		ex_s(key); ex_s(": "); ex_s(val); ex_s("\r\n");
-		/* "Add the content length on a request if missing; always add it for POST and PUT requests" (methods with a body) */
-		if (VP_METHOD != 2 && (VP_B > 0 || VP_METHOD == 1 || VP_METHOD == 3)) {
-			ex_s("Content-Length: "); ex_c('0' + VP_B); ex_s("\r\n");
-		}
-		ex_s("\r\n");
-		if (VP_B) { ex_c('x'); if (VP_B > 1) ex_c('y'); }
+
+		r = &sink->rec[at++];
+		VP_ASSERT(sink->nrec >= 3, "C26: request line, header(s) and CRLF written");
+		VP_ASSERT(vp_fmt_is(r, "%s %s HTTP/%d.%d\r\n") && r->nargs == 4, "C26: first write is the request line '%s %s HTTP/%d.%d CRLF'");
+		VP_ASSERT(same_str(r->sarg[0], names[m], 8), "C26: request line carries the method supplied");
+		VP_ASSERT(r->sarg[1] == req.uri && same_str(r->sarg[1], txt, VP_V), "C26: request line carries the target supplied");
+		VP_ASSERT(r->narg[2] == 1 && r->narg[3] == (unsigned)minor, "C26: request line carries the version supplied");
+		/* "Add the content length on a request if missing; always add it for POST and PUT" (methods that may have a body) */
+		expect_cl = (m != 2 && m != 6) && (blen > 0 || m == 1 || m == 3);
+		r = &sink->rec[at++];
+		VP_ASSERT(is_hdr(r, key, VP_K) && same_str(r->sarg[1], val, VP_V), "C26: the caller's header is written verbatim as 'name: value CRLF'");
 	}
 #endif
-	VP_ASSERT(evbuffer_get_length(sink) == exp_len, "C26: number of bytes written != start-line + caller's header + automatic headers + CRLF + body");
-	for (i = 0; i < VP_FLAT_CAP; i++)
-		if (i < exp_len && sink->d[sink->off + i] != exp_out[i]) same = 0;
-	VP_ASSERT(same, "C26: bytes written != 'start-line CRLF *(name \": \" value CRLF) CRLF body' with the caller's strings verbatim");
+	if (expect_cl) {
+		unsigned long long v = 0;
+		size_t l;
+		r = &sink->rec[at++];
+		VP_ASSERT(is_hdr(r, "Content-Length", 16), "C26: automatic Content-Length header");
+		l = strlen(r->sarg[1]);
+		VP_ASSERT(ref_content_length((const ref_u8 *)r->sarg[1], l, &v), "C26: automatic Content-Length is 1*DIGIT");
+		VP_ASSERT(v == blen, "C26: automatic Content-Length == length of the body written");
+	}
+	r = &sink->rec[at++];
+	VP_ASSERT(r->kind == VP_REC_ADD && r->n == 2 && r->bytes[0] == '\r' && r->bytes[1] == '\n', "C26: header section ends with one CRLF (no further header written)");
+	if (blen > 0) {
+		r = &sink->rec[at++];
+		VP_ASSERT(r->kind == VP_REC_ADDBUF && r->src == body && r->n == blen, "C26: the caller's body follows the head, complete");
+	}
+	VP_ASSERT(sink->nrec == at, "C26: nothing else is written");
 	VP_ASSERT(evbuffer_get_length(body) == 0, "C26: the body was moved to the output");
-	VP_WITNESS("message head written");
+	if (expect_cl && blen > 9) VP_WITNESS("head with automatic Content-Length and body written");
+	if (!expect_cl) VP_WITNESS("head without Content-Length written");
 	evhttp_clear_headers(&out_headers);
 }
